@@ -130,7 +130,11 @@ def pt_lookup(ip, o, ls, node):
         if same is True:
             return rec['value']
         if same is None:
-            raise Unsupported('cannot decide whether %s is the stored pair %s' % (ls, rec['labels']), node)
+            e1 = ip.decide_labels_equal(rec['labels'][0], ls[0], node) and ip.decide_labels_equal(rec['labels'][1], ls[1], node)
+            if not e1 and symmetric:
+                e1 = ip.decide_labels_equal(rec['labels'][0], ls[1], node) and ip.decide_labels_equal(rec['labels'][1], ls[0], node)
+            if e1:
+                return rec['value']
     elem = o.attrs.get('_native_elem')
     if elem is not None:
         return elem(ip, ls[0], ls[1], node)
@@ -247,11 +251,9 @@ def vt_getitem(ip, o, args, kwargs, node):
     if not isinstance(k, Label):
         raise Unsupported('ValueTable key is not a type label', node)
     for rec in reversed(o.attrs['_native_store']):
-        same = ip.labels_equal(rec['label'], k.name)
+        same = ip.decide_labels_equal(rec['label'], k.name, node)
         if same is True:
             return rec['value']
-        if same is None:
-            raise Unsupported('cannot decide whether %s is the stored label %s' % (k.name, rec['label']), node)
     elem = o.attrs.get('_native_elem')
     if elem is not None:
         return elem(ip, k.name, node)
